@@ -46,29 +46,7 @@ Proof.
 Qed.
 
 (** ** Authorisation follows ownership *)
-(** What "no method on [n] is authorised" means: transfer, setAdmin, renew,
-    updateSOA of [n], record methods of every name whose token is [n], and
-    registration of names directly below [n]. *)
-Definition nothing_authorised_on (c : nctx) (s : nstate) (n : bytes) : Prop :=
-  (forall t, authorised c s (Transfer t n) = false) /\
-  (forall a, authorised c s (SetAdmin n a) = false) /\
-  (forall y, authorised c s (Renew n y) = false) /\
-  (forall e a b x d, authorised c s (UpdateSOA n e a b x d) = false) /\
-  (forall name, token_id_from_name hash valid_name c s name = Halt n ->
-     (forall t d, authorised c s (AddRecord name t d) = false) /\
-     (forall t i d, authorised c s (SetRecord name t i d) = false) /\
-     (forall t, authorised c s (DeleteRecords name t) = false)) /\
-  (forall sub o e a b x d, parent_name sub = n -> (2 <? level sub)%nat = true ->
-     authorised c s (Register sub o e a b x d) = false).
-
-Lemma fresh_owner_only c' s' n o2 nm exp :
-  get_ns hash s' n = Some (mkNS (Some o2) nm exp None) -> length o2 = 20%nat ->
-  wit_of c' o2 = false -> nothing_authorised_on c' s' n.
-Proof.
-  intros Hn Hl Hw. eapply unauthorised_on_name; [exact Hn| |].
-  - apply (may_admin_false c' _ o2); cbn; auto. rewrite Hl. reflexivity.
-  - unfold owner_wit. cbn. exact Hw.
-Qed.
+Notation nothing_authorised_on := (nothing_authorised_on hash valid_name).
 
 (** After a transfer to a different owner, a context that does not witness
     the new owner — e.g. one witnessing only the former owner and the former
@@ -80,7 +58,7 @@ Theorem C11_follows_ownership_transfer : forall c s o2 n s' ns ns0 c',
 Proof.
   intros c s o2 n s' ns ns0 c' H Hn Hne Hw.
   destruct (transfer_post hash valid_name valid_data str_ok _ _ _ _ _ _ _ H Hn Hne) as [Hp Hl].
-  exact (fresh_owner_only _ _ _ _ _ _ Hp Hl Hw).
+  exact (fresh_owner_only hash valid_name _ _ _ _ _ _ Hp Hl Hw).
 Qed.
 
 (** After a (re-)registration — in particular the takeover of an expired name
@@ -92,7 +70,7 @@ Theorem C11_follows_ownership_register : forall c s o2 n e a b x d s' ns c',
 Proof.
   intros c s o2 n e a b x d s' ns c' H Hw.
   destruct (register_post hash valid_name valid_data str_ok _ _ _ _ _ _ _ _ _ _ _ H) as [[exp Hp] Hl].
-  exact (fresh_owner_only _ _ _ _ _ _ Hp Hl Hw).
+  exact (fresh_owner_only hash valid_name _ _ _ _ _ _ Hp Hl Hw).
 Qed.
 
 (** The owner of the parent can register sub-names (see the Example below)
